@@ -54,3 +54,13 @@ Fixpoint proper_prefixes (n : name) : list name :=
   end.
 
 End Names.
+
+(* ---- the string layer: a component is a string, a name renders with dots ---- *)
+From Coq Require Import NArith.
+Definition DOTC : N := 46%N.
+Fixpoint render (n : list (list N)) : list N :=
+  match n with
+  | [] => []
+  | [c] => c
+  | c :: r => c ++ DOTC :: render r
+  end.
